@@ -42,6 +42,7 @@ MUTANTS = [
                 stack.append([cur_symbol, self.prods_map[cur_symbol], 0, 0])""", """                # do need to go deeper
                 processed_symbols.add(cur_symbol)
                 stack.append([cur_symbol, self.prods_map[cur_symbol], 0, 0])""")]},
+    {"id": "c03-suffix-symbols-preprocessed", "expect": "fire", "edits": [(L, "        processed_symbols = set(self.terminals)\n", "        processed_symbols = set(self.terminals) | self._suffix_symbols\n")]},
     # neutral
     {"id": "c03-n-nested-if", "expect": "silent", "edits": [(L, """                if not prev_symbol_is_nullable:
                     # do not check current symbol because previous not nullable
